@@ -118,14 +118,21 @@ def gen_grid(seed, tier):
         if i % 11 == 0:
             # a row shared by several tables (joined in various orders, also the same table twice), then cells added late
             b = GridBuilder(rng, ntables=rng.randint(2, 3))
+            # (some of the tables are already wider than the shared row will be when it joins, some narrower:
+            # a late cell must widen exactly those it outgrows, whichever the row joined last)
+            for t in range(1, b.ntables + 1):
+                if rng.random() < 0.5:
+                    b.ops.append({"op": "rowitems", "t": t, "items": [S("w")] * rng.randint(1, 4)})
+                    b.rows.append({"sep": False, "n": 0, "tbl": t})
+            shared = len(b.rows) + 1
             b.ops.append({"op": "newrow", "how": "new", "t": 1, "cap": 0})
             b.rows.append({"sep": False, "n": 0, "tbl": 0})
             for _ in range(rng.randint(0, 2)):
-                b.ops.append({"op": "rowadd", "r": 1, "item": S("a")})
+                b.ops.append({"op": "rowadd", "r": shared, "item": S("a")})
             for _ in range(rng.randint(2, 5)):
-                b.ops.append({"op": "addrow", "t": rng.randint(1, b.ntables), "r": 1})
+                b.ops.append({"op": "addrow", "t": rng.randint(1, b.ntables), "r": shared})
             for _ in range(rng.randint(1, 3)):
-                b.ops.append({"op": "rowadd", "r": 1, "item": S("bb")})
+                b.ops.append({"op": "rowadd", "r": shared, "item": S("bb")})
             out.append(b.ops)
             continue
         w = {"headers": 1, "rowitems": 4, "sep": 1, "appendrow": 1, "newrow": 1, "rowadd": 3, "addrow": 2}
@@ -165,7 +172,8 @@ def rnd_obj(rng, words, caps=None):
 
 OTHERS = ["int42", "int0", "negint", "int64big", "uint8", "float", "floatexp", "true", "false", "named", "namedempty",
           "bytes", "struct", "structptr", "hidden", "strhidden", "strhiddenempty", "map", "emptymap", "slice",
-          "emptyslice", "marshaler", "nilptr", "complex", "error"]
+          "emptyslice", "marshaler", "nilptr", "complex", "error", "float32", "float32b", "inf", "nan",
+          "valslice:a,b", "valslice:one"]
 
 
 def gen_items(seed, tier):
@@ -183,7 +191,7 @@ def gen_items(seed, tier):
             elif r < 0.6:
                 items.append(rnd_obj(rng, WORDS))
             elif r < 0.75:
-                items.append({"k": "other", "which": rng.choice(OTHERS)})
+                items.append({"k": "other", "which": rng.choice(OTHERS + ["valslice:a,b", "float32"])})
             elif r < 0.8:
                 items.append({"k": "nil"})
             elif r < 0.87:
@@ -209,6 +217,12 @@ def gen_items(seed, tier):
             if items[c - 1]["k"] == "obj" and rng.random() < 0.6:
                 ni = rnd_obj(rng, WORDS, caps=list(items[c - 1]["caps"]))
                 ops.append({"op": "mutate", "cell": ref, "item": ni})
+            elif items[c - 1].get("which", "").startswith("valslice:") and rng.random() < 0.8:
+                # a struct VALUE that shares a slice with the outside changes behind the cell's back as well
+                n = len(items[c - 1]["which"].split(":")[1].split(","))
+                ops.append({"op": "mutate", "cell": ref, "item": {"k": "other", "which": "valslice:" + ",".join(rng.choice(["x", "yy", "zed"]) for _ in range(n))}})
+                if rng.random() < 0.7:
+                    ops.append({"op": "update", "cell": ref})
             else:
                 ops.append({"op": "update", "cell": ref})
         if detached:
@@ -318,7 +332,7 @@ def gen_errors(seed, tier):
 
 
 KEYS = ["k_int", "k_int64", "k_u8", "k_str", "k_named", "k_sA", "k_sB", "k_p1", "k_p2", "k_align", "k_skip"]
-VALS = ["v1", "v2", "v3", "vtrue", "vfalse", "vL", "vR", "vC", "vbad", "nil"]
+VALS = ["v1", "v2", "v3", "vtrue", "vfalse", "vL", "vR", "vC", "vbad", "nil", "vq1", "vq2", "vq1", "vq2"]
 
 
 def gen_props(seed, tier):
@@ -509,7 +523,7 @@ DECOR_FIELDS = ["Horizontal", "Vertical", "CrossPiece", "TopDown", "VBorder", "H
 GLYPHS = list("abcdefghijklmnopqrstuvwxyzABCDEFGHIJKLMNOPQRSTUVWXYZ0123456789*+=-|#@%") + ["é", "ß", "╳", "░", "·",
           "-\u0305", "e\u0301", "|\u0336", "x\u0302\u0303"]   # several runes, one display cell
 
-TEXTS = ["a", "bb", "ccc", "", "x y", "line1\nline2", "tail\n", "\nlead", "a\n\nb", "日本", "é", "z​w",
+TEXTS = ["a", "bb", "ccc", "", "x y", "line1\nline2", "ab\r\ncd", "x\r\ny\r\n", "cr\r", "tail\n", "\nlead", "a\n\nb", "日本", "é", "z​w",
          "\U0001F468‍\U0001F469‍\U0001F467", "\U0001F1E9\U0001F1EA", "wideＡ", "0", "-1.5", "three\nlines\nhere", " padded ",
          "ｗｉｄｅ\nnarrow", "\U0001F44D\U0001F3FD ok", "한글", "longer text in a cell", "\n", "\n\n",
          # texts for which the library's measure is not additive next to a space (a mark, modifier or prepended
@@ -637,6 +651,29 @@ def gen_text(seed, tier, sized=0.0, aligns=0.3):
     out = []
     for i in range(n):
         b = GridBuilder(rng)
+        if i % 8 == 3:
+            # the same wrapper rendered again after the widest cell of a column SHRANK (no header cell above it, or a
+            # header shorter than the table is wide): nothing of the first layout may survive into the second
+            nc = rng.randint(1, 3)
+            if rng.random() < 0.4:
+                b.ops.append({"op": "headers", "t": 1, "items": [S("h")] * rng.randint(0, nc - 1)})
+            wide = rng.randint(1, nc)
+            for r in range(rng.randint(1, 3)):
+                items = [S(rng.choice(["a", "bb", ""])) for _ in range(nc)]
+                if r == 0:
+                    items[wide - 1] = {"k": "obj", "caps": ["String"], "strv": "the widest cell of this column"}
+                b.ops.append({"op": "rowitems", "t": 1, "items": items})
+                b.rows.append({"sep": False, "n": nc, "tbl": 1})
+            b.ops.append({"op": "wrap", "kind": "text", "over": {"t": 1}})
+            if rng.random() < 0.5:
+                b.ops.append(rnd_decor_op(rng, 1))
+            b.ops.append({"op": "render", "w": 1, "entry": rng.choice(["Render", "RenderTo"])})
+            ref = {"kind": "cell", "r": 1, "c": wide}
+            b.ops.append({"op": "mutate", "cell": ref, "item": {"k": "obj", "caps": ["String"], "strv": rng.choice(["x", "", "ab"])}})
+            b.ops.append({"op": "update", "cell": ref})
+            b.ops.append({"op": "render", "w": 1, "entry": rng.choice(["Render", "RenderTo"])})
+            out.append(b.ops)
+            continue
         ncols = build_table(rng, b, rng.randint(1, 6), rng.randint(0, 8), lambda: rnd_text_item(rng, sized=sized))
         for c in range(0, ncols + 1):
             if rng.random() < aligns:
@@ -862,6 +899,10 @@ def gen_total(seed, tier):
         r = rng.random()
         if r < 0.3:
             return rnd_obj(rng, TEXTS)
+        if r < 0.36:
+            # numbers one of the renderers cannot encode (JSON has no NaN / infinity): that renderer must fail
+            # cleanly -- an error and no text -- and the others must render
+            return {"k": "other", "which": rng.choice(["nan", "inf", "float32", "int42"])}
         return rnd_text_item(rng, sized=0.3)
     for i in range(n):
         b = GridBuilder(rng)
@@ -960,6 +1001,18 @@ def gen_paths(seed, tier):
                     b.ops.append(rnd_decor_op(rng, nwr + 1))
             nwr += 1
         render_ops(rng, b, nwr, rng.randint(1, 4))
+        hops = [o for o in b.ops if o["op"] == "headers" and o["t"] == 1]
+        if hops and rng.random() < 0.35:
+            # the header is replaced (same number of cells) after wrappers have rendered: every path, old wrappers
+            # included, must now show the new header
+            # (every wrapper renders before and after, so that whatever one of them keeps from its first render shows)
+            for w in range(1, nwr + 1):
+                b.ops.append({"op": "render", "w": w, "entry": "Render"})
+            names = rng.sample(["new", "hdr", "k", "x y", "n\nl", "q", "zz", "0", "é"], min(9, len(hops[-1]["items"])))
+            b.ops.append({"op": "headers", "t": 1, "items": [S(names[j % len(names)] + ("" if j < len(names) else str(j))) for j in range(len(hops[-1]["items"]))]})
+            for w in range(1, nwr + 1):
+                b.ops.append({"op": "render", "w": w, "entry": rng.choice(["Render", "RenderTo"])})
+            render_ops(rng, b, nwr, rng.randint(1, 3))
         if mine:
             b.ops.append({"op": "render", "auto": rng.choice([mine, "texttable." + mine, "TextTable." + mine]), "t": 1, "entry": "Render"})
         out.append(b.ops)
